@@ -10,7 +10,8 @@
      op      index into refop (Filter.v), ignored for carriers 0/1
      nest    number of enclosing DW_OP_entry_value
      tkind   0 entry #tval (global identity), 1 root DIE of unit #tval, 2 inside the root DIE of unit
-             #tval (in bounds, not a DIE), 3 out of bounds, 4 zero (generic type)
+             #tval (in bounds, not a DIE), 3 out of bounds, 4 zero (generic type), 5 unit-relative and out of
+             bounds of its own unit, landing exactly on entry #tval of a LATER unit (carriers 0, 2-6 with op 5/6)
    identities are the global preorder indices 0.. ; the harness names the DIEs "e<k>".
    required := identities, one byte each.
    result: `ok k:p ...` (k ascending; p = identity of the parent the DIE is attached to, r = unit root)
@@ -18,7 +19,7 @@
 open Conv
 open Streams
 
-type tgt = TEnt of int | TRoot of int | TMid of int | TOob | TZero
+type tgt = TEnt of int | TRoot of int | TMid of int | TOob | TZero | TOobEnt of int
 type gsite = { car : int; op : int; nest : int; tgt : tgt }
 type gent = { depth : int; tag : int; decl : bool; sites : gsite list }
 type gforest = gent list list
@@ -36,7 +37,7 @@ let enc_forest (f : gforest) : string =
         byte s.car; byte s.op; byte s.nest;
         (match s.tgt with
          | TEnt k -> byte 0; byte k | TRoot j -> byte 1; byte j | TMid j -> byte 2; byte j
-         | TOob -> byte 3; byte 0 | TZero -> byte 4; byte 0)) e.sites) u) f;
+         | TOob -> byte 3; byte 0 | TZero -> byte 4; byte 0 | TOobEnt k -> byte 5; byte k)) e.sites) u) f;
   if Buffer.length b = 0 then "-" else Buffer.contents b
 
 let enc_req (l : int list) = hex_of_ints l
@@ -65,9 +66,10 @@ let to_model ver fmt (f : gforest) : Filter.unitd list * (int, int) Hashtbl.t =
   let eoff i = hdr + 10 * (i + 1) in
   let ident : (int, int) Hashtbl.t = Hashtbl.create 64 in   (* section offset -> identity *)
   Array.iteri (fun k (j, i) -> Hashtbl.replace ident (unit_stride * j + eoff i) k) pos;
-  let site_val s =
+  let site_val j0 s =
     let info = site_is_info s in
     match s.tgt with
+    | TOobEnt k -> let (j, i) = pos.(k) in unit_stride * (j - j0) + eoff i
     | TEnt k -> let (j, i) = pos.(k) in if info then unit_stride * j + eoff i else eoff i
     | TRoot j -> if info then unit_stride * j + hdr else hdr
     | TMid j -> if info then unit_stride * j + hdr + 1 else hdr + 1
@@ -82,20 +84,20 @@ let to_model ver fmt (f : gforest) : Filter.unitd list * (int, int) Hashtbl.t =
     | 4 -> Filter.CLoc (Filter.LocEmpty, nest, refops.(s.op))
     | 5 -> Filter.CLoc (Filter.LocInverted, nest, refops.(s.op))
     | _ -> Filter.CLoc (Filter.LocTombstone, nest, refops.(s.op)) in
-  let mk_entry i (e : gent) : Filter.entry =
+  let mk_entry j0 i (e : gent) : Filter.entry =
     { Filter.e_off = n_of_int (eoff i); e_tag = n_of_int e.tag; e_decl = e.decl;
-      e_sites = List.map (fun s -> { Filter.s_car = car_of s; s_val = n_of_int (site_val s) }) e.sites } in
+      e_sites = List.map (fun s -> { Filter.s_car = car_of s; s_val = n_of_int (site_val j0 s) }) e.sites } in
   (* preorder + depth -> trees *)
-  let rec build d (l : (int * gent) list) : Filter.tree list * (int * gent) list =
+  let rec build j0 d (l : (int * gent) list) : Filter.tree list * (int * gent) list =
     match l with
     | (i, e) :: rest when e.depth = d ->
-        let kids, rest1 = build (d + 1) rest in
-        let sibs, rest2 = build d rest1 in
-        (Filter.Node (mk_entry i e, kids) :: sibs, rest2)
+        let kids, rest1 = build j0 (d + 1) rest in
+        let sibs, rest2 = build j0 d rest1 in
+        (Filter.Node (mk_entry j0 i e, kids) :: sibs, rest2)
     | _ -> ([], l) in
   let units = List.mapi (fun j u ->
     let n = List.length u in
-    let trees, left = build 1 (List.mapi (fun i e -> (i, e)) u) in
+    let trees, left = build j 1 (List.mapi (fun i e -> (i, e)) u) in
     if left <> [] then failwith "s_c19: ill-formed depth sequence";
     { Filter.u_off = n_of_int (unit_stride * j); u_hdr = n_of_int hdr; u_len = n_of_int (10 * (n + 2));
       u_kids = trees }) f in
@@ -114,20 +116,20 @@ let show ident (r : (BinNums.coq_N * BinNums.coq_N) list Res.res) : string =
   | Res.Panic -> "panic"
   | Res.OutOfFuel -> "outoffuel"
 
-let eval ~spec ver fmt (f : gforest) (req : int list) (dbg : bool) : string =
+let eval ?(tol = false) ~spec ver fmt (f : gforest) (req : int list) (dbg : bool) : string =
   let units, ident = to_model ver fmt f in
   let pos = positions f in
   let hdr = hdr_size ver fmt in
   let reqoffs = List.map (fun k -> let (j, i) = pos.(k) in n_of_int (unit_stride * j + hdr + 10 * (i + 1))) req in
   let reqf x = List.mem x reqoffs in
   let rf = if spec then Filter.conv_refs else Filter.filter_refs in
-  show ident (Filter.convert_filtered rf dbg reqf units)
+  show ident ((if tol then Filter.convert_filtered_tol else Filter.convert_filtered) rf dbg reqf units)
 
 let case_line stream ver fmt asz f req =
   Printf.sprintf "%s %d %d %d %s %s" stream ver fmt asz (enc_forest f) (enc_req req)
 
-let emit_case emit stream ~spec ver fmt asz f req =
-  both emit (case_line stream ver fmt asz f req) (eval ~spec ver fmt f req)
+let emit_case ?(tol = false) emit stream ~spec ver fmt asz f req =
+  both emit (case_line stream ver fmt asz f req) (eval ~tol ~spec ver fmt f req)
 
 (* ---------------------------------------------------------------- generators *)
 let t_var = 0x34 and t_member = 0x0d and t_param = 0x05 and t_block = 0x0b and t_subprogram = 0x2e
@@ -352,6 +354,55 @@ let () =
         let cnt = count f in
         if cnt > 0 && cnt < 250 then
           for _ = 1 to 4 do emit_case emit stream ~spec:false ver fmt asz f (random_subset r cnt); incr made done
+      done)
+
+let () =
+  register "c19.oob"
+    ~doc:"error-tolerant filtered conversion (attribute-by-attribute loop, failing attributes skipped) of forests with malformed references: unit-relative offsets out of bounds of their own unit that land exactly on a DIE of a later unit (attribute DW_FORM_ref4/8, DW_OP_call4, DW_OP_GNU_parameter_ref; in exprlocs, nested in DW_OP_entry_value, in live and skipped location-list entries), far out-of-bounds and non-DIE targets mixed with valid references; expected = the reserved set (tolerant_emits_reserved); exhaustive: a required DIE of unit 0 -> each DIE of unit 1 through every such carrier"
+    (fun ~seed ~n emit ->
+      let stream = "c19.oob" in
+      let oob_cars = [ (0, 0); (2, 5); (2, 6); (3, 6); (4, 6); (5, 5); (6, 6) ] in
+      (* exhaustive: unit 0 = {a}, unit 1 = {b; c (child or sibling of b)}; a -> b or c, out of bounds *)
+      List.iter (fun (ver, fmt, asz) ->
+        List.iter (fun (car, op) ->
+          if not (car = 4 && ver < 5) then
+          for nest = 0 to (if car >= 2 then 1 else 0) do
+            for tgt = 1 to 2 do
+              List.iter (fun d2 ->
+                List.iter (fun (tb, tc) ->
+                  let f = [ [ { depth = 1; tag = t_var; decl = false; sites = [ { car; op; nest; tgt = TOobEnt tgt } ] } ];
+                            [ { depth = 1; tag = tb; decl = false; sites = [] };
+                              { depth = d2; tag = tc; decl = false; sites = [] } ] ] in
+                  List.iter (fun req -> emit_case ~tol:true emit stream ~spec:false ver fmt asz f req) (subsets 3))
+                  [ (t_typedef, t_base); (t_struct, t_member); (t_ns, t_var) ]) [ 1; 2 ]
+            done
+          done) oob_cars) [ (4, 4, 8); (5, 4, 8); (5, 8, 8); (2, 4, 4); (3, 8, 8) ];
+      let r = mk_rng (seed * 6151 + 41) in
+      let totals = [| 2; 3; 3; 4; 4; 5; 5; 6; 6; 7; 8; 9; 10; 12; 14; 18 |] in
+      let made = ref 0 in
+      while !made < n do
+        let (ver, fmt, asz) = pick r versions in
+        let nunits = 2 + rand_int r 2 in
+        let total = pick r totals in
+        let sizes = split_sizes r total nunits in
+        let f = gen_forest r ~ver ~sizes ~cars:cars_covered ~nesting:false
+            ~invalid:(if rand_int r 3 = 0 then 150 else 0) ~maxsites:2 in
+        (* add malformed unit-relative references into later units *)
+        let starts = let b = ref 0 in List.map (fun n -> let s = !b in b := s + n; s) sizes in
+        let cnt = count f in
+        let f = List.mapi (fun j u ->
+          let later = List.nth starts j + List.length u in       (* first identity of the next unit *)
+          List.map (fun e ->
+            if later < cnt && rand_int r 3 = 0 then begin
+              let (car, op) = List.nth oob_cars (rand_int r (List.length oob_cars)) in
+              let car = if car = 4 && ver < 5 then 5 else car in
+              let nest = if car >= 2 && rand_int r 4 = 0 then 1 else 0 in
+              { e with sites = e.sites @ [ { car; op; nest; tgt = TOobEnt (later + rand_int r (cnt - later)) } ] }
+            end else e) u) f in
+        if cnt <= 8 then
+          List.iter (fun req -> emit_case ~tol:true emit stream ~spec:false ver fmt asz f req; incr made) (subsets cnt)
+        else
+          for _ = 1 to 8 do emit_case ~tol:true emit stream ~spec:false ver fmt asz f (random_subset r cnt); incr made done
       done)
 
 let init () = ()
